@@ -1,6 +1,6 @@
 (* C04 — Gherkin parsing is faithful: structure, text, tags, step types and line numbers.
    Statements only; proofs are in theories/GherkinProofs.v. *)
-From BV Require Import Base UStr GherkinTypes Gherkin GherkinProofs GherkinRowProofs.
+From BV Require Import Base UStr GherkinTypes Gherkin GherkinProofs GherkinRowProofs GherkinBlockProofs.
 From BVGen Require Import GherkinTables.
 
 (* In every one of the languages of behave.i18n, every alias of every structural keyword, written as "<alias>: x", is
@@ -89,6 +89,32 @@ Theorem table_cells_are_read_back_exactly :
   forall cells, cells <> [] -> forallb cell_ok cells = true -> row_cells (render_row cells) = cells.
 Proof. exact row_cells_reads_back_the_cells. Qed.
 Print Assumptions table_cells_are_read_back_exactly.
+
+(* At the level of the whole state machine, for features made of a Feature line and plain scenarios (a Scenario line each,
+   followed by Given / When / Then step lines; the conditions `feature_line`, `scenario_line`, `step_line` say what such
+   a line is in terms of the line-level facts, in any language): the model delivered is exactly that feature, its
+   scenarios in file order and their steps in order, with the keyword aliases, names, step types and 1-based line
+   numbers of the lines they stand on; no table is left open. *)
+Theorem a_feature_of_plain_scenarios_is_parsed_into_exactly_what_was_written :
+  forall kw code fline falias fname scens,
+  feature_line kw fline falias fname -> Forall (ascen_ok kw) scens ->
+  exists m',
+    fold_left feed (fline :: flat_map ascen_lines scens) (ROk (init_state code kw VFeature StInitial)) = ROk m' /\
+    m_table m' = None /\
+    option_map fin_feature (m_feat m') = Some (mkPFeat falias fname 1 [] [] None (expected_scenarios scens 1) code).
+Proof. exact a_feature_of_plain_scenarios_is_read_back_exactly. Qed.
+Print Assumptions a_feature_of_plain_scenarios_is_parsed_into_exactly_what_was_written.
+
+Theorem a_block_of_step_lines_becomes_exactly_those_steps :
+  forall lines m f s rest,
+  m_st m = StSteps -> at_feature_scenario m f s rest ->
+  Forall (fun x => let '(line, t, k, text) := x in step_line (m_kw m) line t k text) lines ->
+  exists m' f' s',
+    fold_left feed (map (fun x => fst (fst (fst x))) lines) (ROk m) = ROk m' /\ m_st m' = StSteps /\
+    at_feature_scenario m' f' s' rest /\ frame_eq m m' /\ m_line m' = m_line m + length lines /\
+    s' = with_steps s (rev (steps_of lines (m_line m)) ++ sc_steps s) /\ f' = with_items f (FScen s' :: rest).
+Proof. exact a_block_of_step_lines_is_read_into_exactly_those_steps. Qed.
+Print Assumptions a_block_of_step_lines_becomes_exactly_those_steps.
 
 (* non-vacuity: a German document with header, tags over two lines with a comment, a background, an outline with examples,
    a doc-string and a table with an escaped pipe, indentation, blank and comment lines *)
